@@ -34,11 +34,20 @@ type dact struct {
 	Arg string `json:"arg,omitempty"` // redirect target / allow scope ("", phase, request)
 }
 
+// act is one element of an action list.  K: deny drop redirect pass block allow (disruptive) |
+// status ctl skip skipafter | log nolog msg tag setvar (no effect on the model: "inert")
+type act struct {
+	K   string `json:"k"`
+	Arg string `json:"arg,omitempty"`
+}
+
 type rawRule struct {
+	Marker int    `json:"marker,omitempty"` // > 0: the entry is "SecMarker M<n>"
 	ID     int    `json:"id"`
 	Phase  int    `json:"phase"`
 	Cond   string `json:"cond"`            // true false conn uri reqhdr resphdr
 	Chain  string `json:"chain,omitempty"` // "" = no chain
+	Acts   []act  `json:"acts,omitempty"`  // explicit action list; when nil the three fields below are laid out
 	Ctl    string `json:"ctl,omitempty"`   // "", On, DetectionOnly, Off
 	Dacts  []dact `json:"dacts,omitempty"`
 	Status int    `json:"status"` // -1 = no status action
@@ -46,6 +55,7 @@ type rawRule struct {
 
 type defAct struct {
 	Phase  int    `json:"phase"`
+	Acts   []act  `json:"acts,omitempty"`
 	Dacts  []dact `json:"dacts"`
 	Status int    `json:"status"`
 }
@@ -155,30 +165,120 @@ func lactCoq(a string) string {
 	return "LPartial"
 }
 
+func isDisruptive(k string) bool {
+	switch k {
+	case "deny", "drop", "redirect", "pass", "block", "allow":
+		return true
+	}
+	return false
+}
+
+// items is the rule's action list (after id, phase, nolog) in written order, the counter included.
+func (r rawRule) items() []act {
+	var l []act
+	if r.Acts != nil {
+		l = append(l, r.Acts...)
+	} else {
+		statusFirst := r.ID%2 == 0
+		if r.Status >= 0 && statusFirst {
+			l = append(l, act{"status", strconv.Itoa(r.Status)})
+		}
+		if r.ID%3 == 0 {
+			for _, d := range r.Dacts {
+				l = append(l, act{d.K, d.Arg})
+			}
+		}
+		if r.Ctl != "" {
+			l = append(l, act{"ctl", r.Ctl})
+		}
+		if r.ID%3 != 0 {
+			for _, d := range r.Dacts {
+				l = append(l, act{d.K, d.Arg})
+			}
+		}
+		if r.Status >= 0 && !statusFirst {
+			l = append(l, act{"status", strconv.Itoa(r.Status)})
+		}
+	}
+	// the per-rule counter: a non-disruptive action whose place in the list is varied
+	at := r.ID % (len(l) + 1)
+	out := append([]act{}, l[:at]...)
+	out = append(out, act{"setvar", fmt.Sprintf("tx.c%d=+1", r.ID)})
+	return append(out, l[at:]...)
+}
+
+func (d defAct) items() []act {
+	if d.Acts != nil {
+		return d.Acts
+	}
+	var l []act
+	for _, a := range d.Dacts {
+		l = append(l, act{a.K, a.Arg})
+	}
+	if d.Status >= 0 {
+		l = append(l, act{"status", strconv.Itoa(d.Status)})
+	}
+	return l
+}
+
+func actSec(a act) string {
+	switch a.K {
+	case "redirect":
+		return "redirect:" + a.Arg
+	case "allow":
+		if a.Arg != "" {
+			return "allow:" + a.Arg
+		}
+		return "allow"
+	case "status":
+		return "status:" + a.Arg
+	case "ctl":
+		return "ctl:ruleEngine=" + a.Arg
+	case "skip":
+		return "skip:" + a.Arg
+	case "skipafter":
+		return "skipAfter:M" + a.Arg
+	case "msg":
+		return "msg:'" + a.Arg + "'"
+	case "tag":
+		return "tag:'" + a.Arg + "'"
+	case "setvar":
+		return "setvar:" + a.Arg
+	}
+	return a.K // deny drop pass block log nolog auditlog noauditlog
+}
+
+func actCoq(a act) string {
+	switch {
+	case isDisruptive(a.K):
+		return "IDis " + dactCoq(dact{a.K, a.Arg})
+	case a.K == "status":
+		return "IStatus " + a.Arg
+	case a.K == "ctl":
+		return "ICtl " + modeCoq(a.Arg)
+	case a.K == "skip":
+		return "ISkip " + a.Arg
+	case a.K == "skipafter":
+		return "ISkipAfter " + a.Arg
+	}
+	return "IInert"
+}
+
+func actsCoq(l []act) string {
+	it := make([]string, len(l))
+	for i, a := range l {
+		it[i] = actCoq(a)
+	}
+	return vh.List(it)
+}
+
 func (r rawRule) sec() string {
-	var acts []string
-	acts = append(acts, fmt.Sprintf("id:%d", r.ID), fmt.Sprintf("phase:%d", r.Phase), "nolog")
-	statusFirst := r.ID%2 == 0
-	if r.Status >= 0 && statusFirst {
-		acts = append(acts, fmt.Sprintf("status:%d", r.Status))
+	if r.Marker > 0 {
+		return fmt.Sprintf("SecMarker M%d\n", r.Marker)
 	}
-	// the counter and the ctl are non-disruptive actions; their place in the list is varied
-	if r.ID%3 == 0 {
-		for _, d := range r.Dacts {
-			acts = append(acts, dactSec(d))
-		}
-	}
-	acts = append(acts, fmt.Sprintf("setvar:tx.c%d=+1", r.ID))
-	if r.Ctl != "" {
-		acts = append(acts, "ctl:ruleEngine="+r.Ctl)
-	}
-	if r.ID%3 != 0 {
-		for _, d := range r.Dacts {
-			acts = append(acts, dactSec(d))
-		}
-	}
-	if r.Status >= 0 && !statusFirst {
-		acts = append(acts, fmt.Sprintf("status:%d", r.Status))
+	acts := []string{fmt.Sprintf("id:%d", r.ID), fmt.Sprintf("phase:%d", r.Phase), "nolog"}
+	for _, a := range r.items() {
+		acts = append(acts, actSec(a))
 	}
 	if r.Chain != "" {
 		acts = append(acts, "chain")
@@ -197,15 +297,15 @@ func (r rawRule) sec() string {
 }
 
 func (r rawRule) coq() string {
+	if r.Marker > 0 {
+		return fmt.Sprintf("MK %d", r.Marker)
+	}
 	ch := "None"
 	if r.Chain != "" {
 		ch = "(Some " + condCoq(r.Chain) + ")"
 	}
-	ctl := "None"
-	if r.Ctl != "" {
-		ctl = "(Some " + modeCoq(r.Ctl) + ")"
-	}
-	return fmt.Sprintf("R %d %d %s %s %s %s %s", r.ID, r.Phase, condCoq(r.Cond), ch, ctl, dactsCoq(r.Dacts), optN(r.Status))
+	// id, phase and nolog are the first three (inert) elements of the list parseActions sees
+	return fmt.Sprintf("R %d %d %s %s (IInert :: IInert :: IInert :: %s)", r.ID, r.Phase, condCoq(r.Cond), ch, actsCoq(r.items()))
 }
 
 func onoff(b bool) string {
@@ -222,11 +322,8 @@ func (w wafCfg) sec() string {
 	fmt.Fprintf(&b, "SecResponseBodyAccess %s\nSecResponseBodyMimeType text/plain\nSecResponseBodyLimit %d\nSecResponseBodyLimitAction %s\n", onoff(w.RespAcc), w.RespLim, w.RespAct)
 	for _, d := range w.Defaults {
 		acts := []string{fmt.Sprintf("phase:%d", d.Phase)}
-		for _, a := range d.Dacts {
-			acts = append(acts, dactSec(a))
-		}
-		if d.Status >= 0 {
-			acts = append(acts, fmt.Sprintf("status:%d", d.Status))
+		for _, a := range d.items() {
+			acts = append(acts, actSec(a))
 		}
 		fmt.Fprintf(&b, "SecDefaultAction \"%s\"\n", strings.Join(acts, ","))
 	}
@@ -239,7 +336,7 @@ func (w wafCfg) sec() string {
 func (w wafCfg) coq() string {
 	ds := make([]string, len(w.Defaults))
 	for i, d := range w.Defaults {
-		ds[i] = fmt.Sprintf("D %d %s %s", d.Phase, dactsCoq(d.Dacts), optN(d.Status))
+		ds[i] = fmt.Sprintf("D %d %s", d.Phase, actsCoq(d.items()))
 	}
 	rs := make([]string, len(w.Rules))
 	for i, r := range w.Rules {
@@ -321,6 +418,8 @@ type obs struct {
 	last    int
 	engine  types.RuleEngineStatus
 	allow   corazatypes.AllowType
+	skip    int
+	skipAft string
 	errText string
 }
 
@@ -417,6 +516,7 @@ func (rn *runner) run(w wafCfg, calls []call) (*runResult, error) {
 		o.last = int(tx.LastPhase())
 		o.engine = tx.RuleEngine
 		o.allow = tx.AllowType
+		o.skip, o.skipAft = tx.Skip, tx.SkipAfter
 		res.obs = append(res.obs, o)
 	}
 	for _, mr := range tx.MatchedRules() {
@@ -427,6 +527,9 @@ func (rn *runner) run(w wafCfg, calls []call) (*runResult, error) {
 		res.matched = append(res.matched, [2]int{mr.Rule().ID(), d})
 	}
 	for _, r := range w.Rules {
+		if r.Marker > 0 {
+			continue
+		}
 		v := tx.Variables().TX().Get(fmt.Sprintf("c%d", r.ID))
 		n := 0
 		if len(v) > 0 && v[0] != "" {
@@ -478,6 +581,17 @@ func (in *interner) obs(o obs) string {
 	eng := map[types.RuleEngineStatus]string{types.RuleEngineOn: "MOn", types.RuleEngineDetectionOnly: "MDet", types.RuleEngineOff: "MOff"}[o.engine]
 	al := map[corazatypes.AllowType]string{corazatypes.AllowTypeUnset: "None", corazatypes.AllowTypeAll: "(Some SAll)",
 		corazatypes.AllowTypePhase: "(Some SPhase)", corazatypes.AllowTypeRequest: "(Some SRequest)"}[o.allow]
+	if o.skip != 0 || o.skipAft != "" {
+		sa := "None"
+		if o.skipAft != "" {
+			n, err := strconv.Atoi(strings.TrimPrefix(o.skipAft, "M"))
+			if err != nil {
+				n = 999999
+			}
+			sa = fmt.Sprintf("(Some %d)", n)
+		}
+		return fmt.Sprintf("OF %s %s %s %d %s %s %d %s", ret, in.term(o.intr), in.term(o.dintr), o.last, eng, al, o.skip, sa)
+	}
 	return fmt.Sprintf("O %s %s %s %d %s %s", ret, in.term(o.intr), in.term(o.dintr), o.last, eng, al)
 }
 
@@ -488,7 +602,7 @@ func (o obs) text() string {
 		}
 		return fmt.Sprintf("{%d %s %d %q}", k.rule, k.action, k.status, k.data)
 	}
-	return fmt.Sprintf("ret=%s/%s/%d intr=%s det=%s last=%d engine=%d allow=%d", o.ret, f(o.retI), o.w, f(o.intr), f(o.dintr), o.last, o.engine, o.allow)
+	return fmt.Sprintf("ret=%s/%s/%d intr=%s det=%s last=%d engine=%d allow=%d skip=%d skipAfter=%q", o.ret, f(o.retI), o.w, f(o.intr), f(o.dintr), o.last, o.engine, o.allow, o.skip, o.skipAft)
 }
 
 // ---- generators ----
@@ -531,14 +645,14 @@ var variants = []variant{
 }
 
 var defaultVariants = []defAct{
-	{0, []dact{{K: "deny"}}, 418},
-	{0, []dact{{K: "deny"}}, -1},
-	{0, []dact{{K: "drop"}}, -1},
-	{0, []dact{{K: "redirect", Arg: "http://d.example/"}}, 303},
-	{0, []dact{{K: "pass"}}, -1},
-	{0, []dact{{K: "block"}}, -1},
-	{0, []dact{{K: "pass"}, {K: "deny"}}, 451},
-	{0, []dact{{K: "allow"}}, -1},
+	{Phase: 0, Dacts: []dact{{K: "deny"}}, Status: 418},
+	{Phase: 0, Dacts: []dact{{K: "deny"}}, Status: -1},
+	{Phase: 0, Dacts: []dact{{K: "drop"}}, Status: -1},
+	{Phase: 0, Dacts: []dact{{K: "redirect", Arg: "http://d.example/"}}, Status: 303},
+	{Phase: 0, Dacts: []dact{{K: "pass"}}, Status: -1},
+	{Phase: 0, Dacts: []dact{{K: "block"}}, Status: -1},
+	{Phase: 0, Dacts: []dact{{K: "pass"}, {K: "deny"}}, Status: 451},
+	{Phase: 0, Dacts: []dact{{K: "allow"}}, Status: -1},
 }
 
 var engines = []string{"On", "DetectionOnly", "Off"}
@@ -597,6 +711,100 @@ func randomRule(r *rand.Rand, id int) rawRule {
 	return rr
 }
 
+var inertActs = []act{{K: "log"}, {K: "nolog"}, {K: "msg", Arg: "m"}, {K: "tag", Arg: "t"}, {K: "setvar", Arg: "tx.z=1"}, {K: "auditlog"}}
+
+var disruptiveActs = []act{{K: "deny"}, {K: "drop"}, {K: "redirect", Arg: "/u"}, {K: "pass"}, {K: "allow"}, {K: "block"}}
+
+// separators returns n non-disruptive actions (log, nolog, status:N, msg, setvar, tag)
+func separators(r *rand.Rand, n int) []act {
+	var l []act
+	for i := 0; i < n; i++ {
+		if r.Intn(4) == 0 {
+			l = append(l, act{"status", pick(r, []string{"301", "307", "401", "503", "200"})})
+		} else {
+			l = append(l, pick(r, inertActs))
+		}
+	}
+	return l
+}
+
+// explicit turns the laid-out fields of a rule into an explicit action list and inserts extra
+// actions (separators, skip, skipAfter) at random places
+func explicit(r *rand.Rand, rr rawRule, extra []act) rawRule {
+	id := rr.ID
+	rr.ID = 0 // items() without the counter position depending on the id
+	l := rr.items()
+	var acts []act
+	for _, a := range l {
+		if a.K == "setvar" && strings.HasPrefix(a.Arg, "tx.c0=") {
+			continue
+		}
+		acts = append(acts, a)
+	}
+	for _, e := range extra {
+		at := r.Intn(len(acts) + 1)
+		acts = append(acts[:at], append([]act{e}, acts[at:]...)...)
+	}
+	if acts == nil {
+		acts = []act{}
+	}
+	rr.ID, rr.Acts, rr.Dacts, rr.Ctl, rr.Status = id, acts, nil, "", -1
+	return rr
+}
+
+// actionList: one rule whose list holds the given disruptive actions separated by seps[i]
+// non-disruptive actions (before the first, between, after the last)
+func actionListCfg(r *rand.Rand, engine string, phase int, ds []act, seps []int, def *defAct) wafCfg {
+	w := wafCfg{Engine: engine, ReqAcc: false, ReqLim: 8, ReqAct: "Reject", RespAcc: false, RespLim: 8, RespAct: "ProcessPartial"}
+	if def != nil {
+		d := *def
+		d.Phase = phase
+		w.Defaults = []defAct{d}
+	}
+	var acts []act
+	for i, d := range ds {
+		acts = append(acts, separators(r, seps[i])...)
+		acts = append(acts, d)
+	}
+	acts = append(acts, separators(r, seps[len(ds)])...)
+	w.Rules = append(w.Rules, marker(7, phase))
+	w.Rules = append(w.Rules, rawRule{ID: 8, Phase: phase, Cond: "true", Acts: acts, Status: -1})
+	w.Rules = append(w.Rules, marker(9, phase), marker(50, 5))
+	return w
+}
+
+// flowCfg: an interrupting rule in phase `phase` that also carries skip:N or skipAfter:M<k>, followed by
+// further rules of the same phase and by logging-phase rules with markers in between
+func flowCfg(r *rand.Rand, engine string, phase int, dis act, flow act, markerPresent bool, status int) wafCfg {
+	w := wafCfg{Engine: engine, ReqAcc: false, ReqLim: 8, ReqAct: "Reject", RespAcc: false, RespLim: 8, RespAct: "ProcessPartial"}
+	acts := []act{dis, flow}
+	if r.Intn(2) == 0 {
+		acts = []act{flow, dis}
+	}
+	if status >= 0 {
+		acts = append(acts, act{"status", strconv.Itoa(status)})
+	}
+	w.Rules = append(w.Rules, marker(1, phase))
+	w.Rules = append(w.Rules, rawRule{ID: 2, Phase: phase, Cond: "true", Acts: acts, Status: -1})
+	w.Rules = append(w.Rules, marker(3, phase))
+	if phase != 5 {
+		w.Rules = append(w.Rules, rawRule{ID: 4, Phase: phase, Cond: "true", Dacts: []dact{{K: "deny"}}, Status: 401})
+	}
+	w.Rules = append(w.Rules, marker(50, 5))
+	if markerPresent {
+		w.Rules = append(w.Rules, rawRule{Marker: 1})
+	} else {
+		w.Rules = append(w.Rules, rawRule{Marker: 2})
+	}
+	w.Rules = append(w.Rules, marker(51, 5), marker(52, 5))
+	w.Rules = append(w.Rules, rawRule{Marker: 3})
+	w.Rules = append(w.Rules, marker(53, 5))
+	if phase < 4 {
+		w.Rules = append(w.Rules, marker(60, phase+1))
+	}
+	return w
+}
+
 func randomCfg(r *rand.Rand) wafCfg {
 	w := wafCfg{ReqLim: 8, RespLim: 8}
 	switch r.Intn(10) {
@@ -627,7 +835,23 @@ func randomCfg(r *rand.Rand) wafCfg {
 	n := 4 + r.Intn(7)
 	ids := r.Perm(40)
 	for i := 0; i < n; i++ {
-		w.Rules = append(w.Rules, randomRule(r, ids[i]+1))
+		rr := randomRule(r, ids[i]+1)
+		switch r.Intn(8) {
+		case 0: // separators between the disruptive actions, flow actions
+			var extra []act
+			extra = append(extra, separators(r, r.Intn(4))...)
+			if r.Intn(2) == 0 {
+				extra = append(extra, act{"skip", strconv.Itoa(1 + r.Intn(3))})
+			}
+			if r.Intn(3) == 0 {
+				extra = append(extra, act{"skipafter", strconv.Itoa(1 + r.Intn(3))})
+			}
+			rr = explicit(r, rr, extra)
+		}
+		w.Rules = append(w.Rules, rr)
+		if r.Intn(6) == 0 {
+			w.Rules = append(w.Rules, rawRule{Marker: 1 + r.Intn(3)})
+		}
 	}
 	return w
 }
@@ -756,8 +980,10 @@ func Run(cfg vh.Config) (*vh.Result, error) {
 		everSwitchedOn := false
 		hasCtlOn := false
 		for _, r := range w.Rules {
-			if r.Ctl == "On" {
-				hasCtlOn = true
+			for _, a := range r.items() {
+				if a.K == "ctl" && a.Arg == "On" {
+					hasCtlOn = true
+				}
 			}
 		}
 		for i, o := range rr.obs {
@@ -797,6 +1023,9 @@ func Run(cfg vh.Config) (*vh.Result, error) {
 		// each rule of phases 1-4 evaluated at most once; nothing evaluated with the engine Off
 		fired := false
 		for _, r := range w.Rules {
+			if r.Marker > 0 {
+				continue
+			}
 			n := rr.counts[r.ID]
 			if n > 0 {
 				fired = true
@@ -821,6 +1050,55 @@ func Run(cfg vh.Config) (*vh.Result, error) {
 				}
 				if m[0] == first.rule && first.rule != 0 {
 					after = true
+				}
+			}
+		}
+
+		// flow actions only work within the phase that raised them: between calls tx.Skip and
+		// tx.SkipAfter are at rest
+		for i, o := range rr.obs {
+			if o.skip != 0 || o.skipAft != "" {
+				fail("c02-flow-state-leaks", fmt.Sprintf("after call %d (%s): tx.Skip=%d tx.SkipAfter=%q", i, calls[i], o.skip, o.skipAft), cj)
+				break
+			}
+		}
+		// the logging phase evaluates ALL its rules (interrupted or not) whenever none of them carries
+		// skip / skipAfter / allow:phase: an unconditional phase-5 rule matches once per ProcessLogging
+		// that starts with the engine not Off
+		{
+			plain5 := true
+			for _, r := range w.Rules {
+				if r.Marker == 0 && r.Phase == 5 {
+					for _, a := range r.items() {
+						if a.K == "skip" || a.K == "skipafter" || (a.K == "allow" && a.Arg == "phase") {
+							plain5 = false
+						}
+					}
+				}
+			}
+			for _, d := range w.Defaults {
+				if d.Phase == 5 {
+					for _, a := range d.items() {
+						if a.K == "allow" && a.Arg == "phase" {
+							plain5 = false
+						}
+					}
+				}
+			}
+			if plain5 {
+				logs := 0
+				eng := map[string]types.RuleEngineStatus{"On": types.RuleEngineOn, "DetectionOnly": types.RuleEngineDetectionOnly, "Off": types.RuleEngineOff}[w.Engine]
+				for i, o := range rr.obs {
+					if calls[i].K == "log" && eng != types.RuleEngineOff {
+						logs++
+					}
+					eng = o.engine
+				}
+				for _, r := range w.Rules {
+					if r.Marker == 0 && r.Phase == 5 && r.Cond == "true" && rr.counts[r.ID] != logs {
+						fail("c02-logging-rule-not-evaluated", fmt.Sprintf("phase-5 rule %d matched %d times in %d ProcessLogging calls", r.ID, rr.counts[r.ID], logs), cj)
+						break
+					}
 				}
 			}
 		}
@@ -884,7 +1162,7 @@ func Run(cfg vh.Config) (*vh.Result, error) {
 		if first != nil {
 			res.InputDistribution["interrupted_by_"+first.action+"_"+strconv.Itoa(first.status)]++
 			for _, r := range w.Rules {
-				if r.ID == first.rule {
+				if r.ID == first.rule && r.Marker == 0 {
 					res.InputDistribution[fmt.Sprintf("interrupted_in_phase_%d", r.Phase)]++
 				}
 			}
@@ -1030,6 +1308,63 @@ func Run(cfg vh.Config) (*vh.Result, error) {
 						}
 						for k := 0; k < cfg.Pick(1, 6); k++ {
 							if err := add(w, perturbed(rng, syms), "ctl"); err != nil {
+								return nil, err
+							}
+						}
+					}
+				}
+			}
+		}
+		// (2b) action lists: 2-3 disruptive actions separated by 0-3 non-disruptive ones, every order
+		//      (the parser keeps only the LAST disruptive action, wherever the earlier ones stand)
+		short := []call{{K: "prh"}, {K: "prb"}, {K: "presph"}, {K: "prespb"}, {K: "log"}}
+		for i, d1 := range disruptiveActs {
+			for j, d2 := range disruptiveActs {
+				for sep := 0; sep <= 3; sep++ {
+					var def *defAct
+					if d1.K == "block" || d2.K == "block" || (i+j+sep)%5 == 0 {
+						def = &defaultVariants[(i+j+sep)%len(defaultVariants)]
+					}
+					phase := 1 + (i+2*j+sep)%4
+					w := actionListCfg(rng, engines[(i+j+sep)%2], phase, []act{d1, d2}, []int{rng.Intn(2), sep, rng.Intn(3)}, def)
+					if err := add(w, short, "action_list"); err != nil {
+						return nil, err
+					}
+				}
+			}
+		}
+		for k := 0; k < cfg.Pick(200, 2000); k++ {
+			ds := []act{pick(rng, disruptiveActs), pick(rng, disruptiveActs), pick(rng, disruptiveActs)}
+			var def *defAct
+			if rng.Intn(3) == 0 {
+				def = &defaultVariants[rng.Intn(len(defaultVariants))]
+			}
+			w := actionListCfg(rng, engines[rng.Intn(2)], 1+rng.Intn(5), ds, []int{rng.Intn(3), rng.Intn(4), rng.Intn(4), rng.Intn(3)}, def)
+			if err := add(w, short, "action_list"); err != nil {
+				return nil, err
+			}
+		}
+		// (2c) an interrupting rule that also carries skip:N / skipAfter:M (marker present later /
+		//      absent): the logging phase must still evaluate every one of its rules
+		flowSeqs := [][]call{
+			{{K: "prh"}, {K: "prb"}, {K: "presph"}, {K: "prespb"}, {K: "log"}},
+			{{K: "prh"}, {K: "log"}, {K: "log"}},
+			{{K: "prh"}, {K: "prb"}, {K: "log"}, {K: "presph"}},
+			{{K: "log"}, {K: "prh"}, {K: "log"}},
+		}
+		for phase := 1; phase <= 5; phase++ {
+			for di, dis := range []act{{K: "deny"}, {K: "drop"}, {K: "redirect", Arg: "/f"}, {K: "pass"}, {K: "allow", Arg: "phase"}} {
+				for fi, flow := range []act{{K: "skip", Arg: "1"}, {K: "skip", Arg: "2"}, {K: "skip", Arg: "3"}, {K: "skipafter", Arg: "1"}, {K: "skipafter", Arg: "1"}} {
+					for ei := 0; ei < 2; ei++ {
+						if ei == 1 && (phase+di+fi)%3 != 0 {
+							continue
+						}
+						w := flowCfg(rng, engines[ei], phase, dis, flow, fi != 4, []int{-1, 403, 503}[(phase+di+fi)%3])
+						for si, sq := range flowSeqs {
+							if si > 0 && (phase+di+fi+si)%2 == 0 && !cfg.Thorough() {
+								continue
+							}
+							if err := add(w, sq, "flow"); err != nil {
 								return nil, err
 							}
 						}
